@@ -68,7 +68,9 @@ def gen_expr(rng, model):
     if r < 0.82:
         return {'u': rng.choice(['$k', '$a', 1]), 'v': rng.choice(['$a.x', '$missing', 2])}
     if r < 0.88:
-        return [1, 2]
+        # an array in expression position: every item is an expression of its own
+        return rng.choice([[1, 2], [1, 2], ['$a', '$k'], ['$a', '$a'], ['$a.y', '$missing'],
+                           [{'u': '$a'}, ['$k', 1]], ['$$ROOT'], [{'$literal': {'q': 1}}, '$a']])
     if model:
         return rng.choice(['$a', '$k'])
     return rng.choice([{'$add': ['$k', 1]}, {'$ifNull': ['$a', {'d': 1}]},
@@ -279,8 +281,8 @@ def gen_simple(rng, model, in_facet):
     if r < 0.83:
         # `$limit` needs a positive, `$skip` a non-negative integer (OperationFailure otherwise)
         if rng.random() < 0.5:
-            return {'$skip': rng.choice([0, 1, 2, 2, -1])}
-        return {'$limit': rng.choice([1, 1, 2, 2, 3, 0])}
+            return {'$skip': rng.choice([0, 1, 2, 2, -1, 1.0, 0.5])}
+        return {'$limit': rng.choice([1, 1, 2, 2, 3, 0, 2.0, 1.5])}
     if r < 0.88:
         return {'$sample': {'size': rng.choice([0, 1, 2, 5])}}
     if r < 0.91:
